@@ -206,6 +206,12 @@ def kv (ts : List String) (key : String) (dflt : Nat) : Nat :=
   | some t => ((t.drop (key.length + 1)).toString).toNat!
   | none => dflt
 
+/-- the flag set of an `exec` line: `alias=<name>` (one of the library's named constants, `Tbfmm.flagAlias`) or `flags=<n>` -/
+def flagsOf (ts : List String) : Nat :=
+  match ts.find? (fun t => t.startsWith "alias=") with
+  | some t => (Tbfmm.flagAlias ((t.drop 6).toString)).getD (kv ts "flags" 63)
+  | none => kv ts "flags" 63
+
 def step (d : DState) (line : String) : DState × List String :=
   let toks := line.trimAscii.toString.splitOn " "
   if d.skip && !(["case", "build", "mark", "end", "tree", "parts"].contains (toks.headD "")) then (d, []) else
@@ -240,7 +246,7 @@ def step (d : DState) (line : String) : DState × List String :=
         ((cellsOf d.treeT).map fun (l, c) => s!"V L {l} {c} {hexOf (d.st.l l c)}") ++
         ((sortNat (d.treeT.stored.map (·.2))).map fun p => s!"V R {p} {hexOf (d.st.r p)}"))
   | "exec" :: "tsm" :: ts =>
-    let cs := executeTsm d.treeS d.treeT d.periodic (kv ts "flags" 63) (kv ts "upper" 2)
+    let cs := executeTsm d.treeS d.treeT d.periodic (flagsOf ts) (kv ts "upper" 2)
     ({ d with st := applyCalls (if d.wide then weightWide else weight) (d.H - 1) d.treeT.partsOf d.treeS.partsOf d.st cs }, cs.map printCall)
   | "exec" :: "periodictsm" :: ts =>
     let n := kvInt ts "n" 0
@@ -261,16 +267,16 @@ def step (d : DState) (line : String) : DState × List String :=
     let tk := topTreeConfig n
     ({ d with st := st4 }, [s!"TK {tk.1} {tk.2.1} {tk.2.2}"] ++ (c1.map printCall) ++ (top'.map printTopCall) ++ (c2.map printCall) ++ (c3.map printCall))
   | "exec" :: "omptsm" :: ts =>
-    let cs := executeTsm d.treeS d.treeT d.periodic (kv ts "flags" 63) (kv ts "upper" 2) true
+    let cs := executeTsm d.treeS d.treeT d.periodic (flagsOf ts) (kv ts "upper" 2) true
     ({ d with st := applyCalls (if d.wide then weightWide else weight) (d.H - 1) d.treeT.partsOf d.treeS.partsOf d.st cs }, cs.map printCall)
   | "exec" :: "specxtsm" :: ts =>
-    let cs := executeTsm d.treeS d.treeT d.periodic (kv ts "flags" 63) (kv ts "upper" 2) true
+    let cs := executeTsm d.treeS d.treeT d.periodic (flagsOf ts) (kv ts "upper" 2) true
     ({ d with st := applyCalls (if d.wide then weightWide else weight) (d.H - 1) d.treeT.partsOf d.treeS.partsOf d.st cs }, cs.map printCall)
   | "exec" :: "starputsm" :: ts =>
-    let cs := executeTsm d.treeS d.treeT d.periodic (kv ts "flags" 63) (kv ts "upper" 2) true
+    let cs := executeTsm d.treeS d.treeT d.periodic (flagsOf ts) (kv ts "upper" 2) true
     ({ d with st := applyCalls (if d.wide then weightWide else weight) (d.H - 1) d.treeT.partsOf d.treeS.partsOf d.st cs }, cs.map printCall)
   | "spec" :: "tsmelems" :: ts =>
-    (d, (specElemsTsm d.D d.H d.periodic (shapeOf d.leafIdxS) (shapeOf d.leafIdxT) (kv ts "flags" 63) (kv ts "upper" 2)).map printElem)
+    (d, (specElemsTsm d.D d.H d.periodic (shapeOf d.leafIdxS) (shapeOf d.leafIdxT) (flagsOf ts) (kv ts "upper" 2)).map printElem)
   | "find" :: "tsmcell" :: which :: l :: is =>
     let l := l.toNat!
     let t := if which == "S" then d.treeS else d.treeT
@@ -420,7 +426,7 @@ def step (d : DState) (line : String) : DState × List String :=
   | "fexec" :: ts =>
     if !d.f.active then (d, ["bad-op fexec"]) else
     if d.f.nRhs == 0 then (d, ["EX"]) else
-    let cs := executeSeq d.tree d.periodic (kv ts "flags" 63) (kv ts "upper" (if d.periodic then 1 else 2))
+    let cs := executeSeq d.tree d.periodic (flagsOf ts) (kv ts "upper" (if d.periodic then 1 else 2))
     let po := d.tree.partsOf
     let st0 : State := { d.st with rhs := {} }
     let st := applyCalls (fun _ => 1) (d.H - 1) po po st0 cs
@@ -453,17 +459,17 @@ def step (d : DState) (line : String) : DState × List String :=
   | ["dump", "structure"] => (d, dumpStructure d.tree)
   | ["dump", "values"] => (d, dumpValues d.tree d.st)
   | "exec" :: "seq" :: ts =>
-    let cs := executeSeq d.tree d.periodic (kv ts "flags" 63) (kv ts "upper" 2)
+    let cs := executeSeq d.tree d.periodic (flagsOf ts) (kv ts "upper" 2)
     let po := d.tree.partsOf
     ({ d with st := applyCalls (if d.wide then weightWide else weight) (d.H - 1) po po d.st cs }, cs.map printCall)
   | "spec" :: "elems" :: ts =>
-    (d, (specElems d.D d.H d.periodic (shapeOf d.leafIdx) (kv ts "flags" 63) (kv ts "upper" 2)).map printElem)
+    (d, (specElems d.D d.H d.periodic (shapeOf d.leafIdx) (flagsOf ts) (kv ts "upper" 2)).map printElem)
   | "exec" :: "seqc" :: ts =>
-    let cs := executeSeq d.tree d.periodic (kv ts "flags" 63) (kv ts "upper" 2)
+    let cs := executeSeq d.tree d.periodic (flagsOf ts) (kv ts "upper" 2)
     let po := d.tree.partsOf
     ({ d with st := applyCalls (if d.wide then weightWide else weight) (d.H - 1) po po d.st cs }, cs.map printCall)
   | "exec" :: "ompc" :: ts =>
-    let cs := executeOmp d.tree d.periodic (kv ts "flags" 63) (kv ts "upper" 2)
+    let cs := executeOmp d.tree d.periodic (flagsOf ts) (kv ts "upper" 2)
     let po := d.tree.partsOf
     ({ d with st := applyCalls (if d.wide then weightWide else weight) (d.H - 1) po po d.st cs }, cs.map printCall)
   | "exec" :: "periodic" :: ts =>
@@ -482,15 +488,15 @@ def step (d : DState) (line : String) : DState × List String :=
     let tk := topTreeConfig n
     ({ d with st := st4 }, [s!"TK {tk.1} {tk.2.1} {tk.2.2}"] ++ (c1.map printCall) ++ (top.map printTopCall) ++ (c2.map printCall) ++ (c3.map printCall))
   | "exec" :: "omp" :: ts =>
-    let cs := executeOmp d.tree d.periodic (kv ts "flags" 63) (kv ts "upper" 2)
+    let cs := executeOmp d.tree d.periodic (flagsOf ts) (kv ts "upper" 2)
     let po := d.tree.partsOf
     ({ d with st := applyCalls (if d.wide then weightWide else weight) (d.H - 1) po po d.st cs }, cs.map printCall)
   | "exec" :: "specx" :: ts =>       -- the Specx executor submits in the same order as the OpenMP one
-    let cs := executeOmp d.tree d.periodic (kv ts "flags" 63) (kv ts "upper" 2)
+    let cs := executeOmp d.tree d.periodic (flagsOf ts) (kv ts "upper" 2)
     let po := d.tree.partsOf
     ({ d with st := applyCalls (if d.wide then weightWide else weight) (d.H - 1) po po d.st cs }, cs.map printCall)
   | "exec" :: "starpu" :: ts =>      -- the StarPU executor submits in the same order as the OpenMP one
-    let cs := executeOmp d.tree d.periodic (kv ts "flags" 63) (kv ts "upper" 2)
+    let cs := executeOmp d.tree d.periodic (flagsOf ts) (kv ts "upper" 2)
     let po := d.tree.partsOf
     ({ d with st := applyCalls (if d.wide then weightWide else weight) (d.H - 1) po po d.st cs }, cs.map printCall)
   | "find" :: "cell" :: l :: is =>
